@@ -91,17 +91,33 @@ def depRaises (c : Checker) (r : Rcd) (fs : FS) (p : Path) : Bool :=
     | none => false
     | some st => !notInPrev r p && checkModified c st cur == .crash
 
-/-- `Dependency.get_status(task, tasks, get_log=True).status`: no early exit, every check runs; a missing dependency
-    sets `error`, but a `changed_file_dep` reason (set after the loop) sets `run` again -/
+/-- `Dependency.get_status(task, tasks, get_log=True).status` on the present tree (after the `fix:` commit "status shown
+    by `doit info` is the decision `doit run` takes"): every check runs and every reason is collected, but the status
+    is the one of the **first** `add_reason` / `set_reason` call -- the point where the `get_log=False` call returns
+    (`added_file_dep` / `removed_file_dep` are logged without deciding).  The file loop runs in any case, so a saved
+    state of the wrong shape raises even where `get_log=False` would have left early. -/
 def logStatus (c : Checker) (d : TaskDef) (r : Rcd) (fs : FS) (resOf : Name → Option Res) : Status :=
+  if d.deps.any (depRaises c (logRcd c r) fs) then .crash
+  else if earlyRun d r.getValues resOf fs || checkerChanged c r then .run
+  else if d.deps.any (depMissing fs) then .error
+  else if d.deps.any (depListed c (logRcd c r) fs) || depsChanged true (logRcd c r) d.deps then .run
+  else .upToDate
+
+def logStatusAt (s : St) (t : Name) : Status :=
+  logStatus s.checker (s.defs t) (s.rcd t) s.fs s.resOf
+
+/-- the same before that commit (F-C20): every `add_reason` / `set_reason` overwrote the status, so the **last** reason
+    found decided: a missing dependency set `error`, but a `changed_file_dep` reason (set after the loop) set `run`
+    again, and the early exits of `get_log=False` did not protect `run` from a later `error` -/
+def logStatusPinned (c : Checker) (d : TaskDef) (r : Rcd) (fs : FS) (resOf : Name → Option Res) : Status :=
   if d.deps.any (depRaises c (logRcd c r) fs) then .crash
   else if d.deps.any (depListed c (logRcd c r) fs) then .run
   else if d.deps.any (depMissing fs) then .error
   else if earlyRun d r.getValues resOf fs || checkerChanged c r || depsChanged true (logRcd c r) d.deps then .run
   else .upToDate
 
-def logStatusAt (s : St) (t : Name) : Status :=
-  logStatus s.checker (s.defs t) (s.rcd t) s.fs s.resOf
+def logStatusPinnedAt (s : St) (t : Name) : Status :=
+  logStatusPinned s.checker (s.defs t) (s.rcd t) s.fs s.resOf
 
 /-- `Info._execute` (tree as repaired): `status_is_ignore` first -- then nothing else is looked at --, else
     `get_status(task, tasks, get_log=True).status` -/
@@ -109,7 +125,7 @@ def infoShown (s : St) (t : Name) : Shown :=
   if (s.rcd t).ign then .ignore else ofStatus (logStatusAt s t)
 
 /-- the pinned `Info._execute`: never consulted `ignore:` -/
-def infoShownPinned (s : St) (t : Name) : Shown := ofStatus (logStatusAt s t)
+def infoShownPinned (s : St) (t : Name) : Shown := ofStatus (logStatusPinnedAt s t)
 
 /-- effect of `info t` (status shown): an ignored task is not looked at, otherwise `get_status(get_log=True)` runs -/
 def infoOne (s : St) (t : Name) : St :=
